@@ -253,7 +253,12 @@ func (e *Engine) setupIntrinsics() {
 	e.setupEnvIntrinsics()
 	e.setupVerifIntrinsics()
 	e.setupReflectIntrinsics()
+	for _, f := range extraIntrinsics {
+		f(e)
+	}
 }
+
+var extraIntrinsics []func(e *Engine)
 
 func nonNil(t []*Term) []*Term {
 	if t == nil {
